@@ -562,6 +562,16 @@ Json genLayoutSession(Rng &r, const std::string &tier, int flavour /*0 constrain
             for (size_t q = 0; q < idx.size(); q++) { double pos = b0 + q * sep + (!dist && !eq ? (double)r.below(3) * 10 * q : 0); for (auto &p : aligns[idx[q]].second) Wd(dim, p.first) = pos + p.second; }
             Json c = Json::obj(); c.set("type", dist ? "dist" : "multisep"); c.set("dim", dim); c.set("sep", sep); if (eq) c.set("eq", true);
             Json aj = Json::arr(); for (int q : idx) aj.push(q); c.set("aligns", aj); ccs.push(c); budget--;
+            // side stream: guide lines of the group are "dragged" -- AlignmentConstraint::fixPos() gives a guide line an ideal position
+            // with a large weight, which is a wish, not a constraint: the separation of the group must still hold when two wishes
+            // are closer together than sep
+            Rng r2(Rng::mix(r.s, "fixed-guidelines"));
+            if (r2.chance(0.35)) {
+                std::vector<size_t> alignAt; for (size_t k2 = 0; k2 < ccs.size(); k2++) if (ccs[k2].str("type", "") == "align") alignAt.push_back(k2);
+                double at = (double)r2.below(40) * 10;
+                int nfix = 0;
+                for (int q : idx) if ((size_t)q < alignAt.size() && (nfix < 2 || r2.chance(0.5))) { ccs.a[alignAt[(size_t)q]].set("fixed", true); ccs.a[alignAt[(size_t)q]].set("pos", at + (double)r2.range(-2, 2) * 10); nfix++; }
+            }
         }
     }
     // separations consistent with the witness
